@@ -5,9 +5,11 @@ import (
 	"fmt"
 	"math/big"
 	"os"
+	"reflect"
 	"sort"
 
 	"github.com/taurusgroup/multi-party-sig/pkg/ecdsa"
+	"github.com/taurusgroup/multi-party-sig/pkg/math/curve"
 	"github.com/taurusgroup/multi-party-sig/pkg/party"
 	"github.com/taurusgroup/multi-party-sig/pkg/protocol"
 	"github.com/taurusgroup/multi-party-sig/protocols/cmp"
@@ -253,10 +255,25 @@ func presigDigest(r *ecdsa.PreSignature) string {
 		ids = append(ids, string(id))
 	}
 	sort.Strings(ids)
+	enc := func(p curve.Point) []byte {
+		if p == nil || (reflect.ValueOf(p).Kind() == reflect.Ptr && reflect.ValueOf(p).IsNil()) {
+			return []byte("absent")
+		}
+		b, _ := p.MarshalBinary()
+		return b
+	}
 	for _, id := range ids {
-		a, _ := r.RBar.Points[party.ID(id)].MarshalBinary()
-		b, _ := r.S.Points[party.ID(id)].MarshalBinary()
-		s += fmt.Sprintf(":%s=%x,%x", id, a, b)
+		s += fmt.Sprintf(":%s=%x,%x", id, enc(r.RBar.Points[party.ID(id)]), enc(r.S.Points[party.ID(id)]))
+	}
+	var extra []string
+	for id := range r.S.Points {
+		if _, ok := r.RBar.Points[id]; !ok {
+			extra = append(extra, fmt.Sprintf(":S-only:%s=%x", id, enc(r.S.Points[id])))
+		}
+	}
+	sort.Strings(extra)
+	for _, e := range extra {
+		s += e
 	}
 	return s
 }
